@@ -202,18 +202,14 @@ func WriteToFile(bs []byte, filepath string) error {
 		return fmt.Errorf("mkdir all: %w", err)
 	}
 
+	bs, err = imports.Process("", bs, nil)
+	if err != nil {
+		return fmt.Errorf("error on format go source (%s): %w", filepath, err)
+	}
+
 	f, err := os.OpenFile(filepath, os.O_CREATE|os.O_WRONLY|os.O_TRUNC, os.ModePerm)
 	if err != nil {
 		return fmt.Errorf("error on open file: %w", err)
-	}
-
-	importedBs, err := imports.Process("", bs, nil)
-	// bs, err := format.Source(bb.Bytes())
-	if err != nil {
-		// return fmt.Errorf("error on format go source: %w", err)
-		log.Printf("Error on format go source (%s): %v", filepath, err)
-	} else {
-		bs = importedBs
 	}
 
 	_, err = f.Write(bs)
